@@ -52,7 +52,7 @@ int main(int argc, char** argv) {
     ND_CASE_GUARD();
     Rng r(s);
     mg::GenOpts go;
-    go.force_sleep = true; go.actuators = false; go.allow_rk4 = false;
+    go.force_sleep = true; go.actuators = r.chance(0.35); go.allow_rk4 = false;   // (actuators: controls are written into both twins; a sleeping tree's actuators are skipped by the engine)
     go.sleep_tolerance = r.chance(0.5) ? 0.2 : 0.05;
     go.min_trees = 3; go.max_trees = 8; go.max_depth = 1;
     std::string mdesc;
@@ -162,6 +162,7 @@ int main(int argc, char** argv) {
           for (int k = 0; k < e.n && !dead; k++) {
             memcpy(qprev.data(), A->qpos, sizeof(mjtNum) * m->nq);
             memcpy(aprev.data(), A->tree_asleep, sizeof(int) * m->ntree);
+            if (m->nu && r.chance(0.3)) { for (int i = 0; i < m->nu; i++) { mjtNum c = r.uniform(-1, 1); A->ctrl[i] = c; if (twin_valid) T->ctrl[i] = c; } count("control_writes"); }
             bool any_asleep = false;
             for (int i = 0; i < m->ntree; i++) any_asleep |= aprev[i] >= 0;
             dead = ND_GUARD({ mj_step(m, A); });
